@@ -15,6 +15,17 @@ from vf.rtc import driver
 DTYPES = ("float64", "complex128", "float32", "complex64")
 
 
+def _serial_cotengra():
+    """the rtc workers are daemonic processes: cotengra's parallel='auto' path search must not try to start a process pool
+    (it resolves to serial execution inside anything marked as a worker); quimb itself is untouched"""
+    try:
+        import cotengra.parallel as par
+
+        par._IS_WORKER = True
+    except Exception:  # noqa
+        pass
+
+
 # ----------------------------------------------------------------------------------------------
 # independent reference helpers (numpy only)
 # ----------------------------------------------------------------------------------------------
@@ -179,9 +190,11 @@ _MPO_SHAPES = ("lrud", "udlr", "rlud", "ludr", "dulr", "uldr", "lrdu")
 def construct(cx):
     import quimb.tensor as qtn
 
+    _serial_cotengra()
+
     rng = cx.rng
     Ls = range(1, 7) if cx.quick else range(1, 8)
-    reps = 2 if cx.quick else 8
+    reps = 8 if cx.quick else 60
     for L, cyclic, rep in itertools.product(Ls, (False, True), range(reps)):
         if not cx.mine():
             continue
@@ -191,6 +204,8 @@ def construct(cx):
         dt = DTYPES[(rep + L) % 4]
         tol = _tol(dt)
         phys = _dims_choices(rng, L)
+        if rep % 2 == 0:
+            phys = [phys[0]] * L   # uniform physical dimension (needed by fill_empty_sites, from_dense(dims=int))
         bonds = _dims_choices(rng, L, 4)
         p = dict(L=L, cyclic=cyclic, dtype=dt, phys=phys, bonds=bonds, rep=rep)
 
@@ -299,6 +314,27 @@ def construct(cx):
             cx.check("MatrixProductOperator(arrays, sites, L) and fill_empty_sites == identities elsewhere", ps, t_mpo_sites,
                      nontrivial=L > 1)
 
+            if len(set(phys)) == 1 and L >= 2 and Lbig > L:
+                def t_fill_pd(oarrs=oarrs, sites=sites, Lbig=Lbig, tol=tol, phys=phys, dt=dt):
+                    A = qtn.MatrixProductOperator(_to_layout(oarrs, "lrud", False, True), sites=sites, L=Lbig)
+                    B = A.fill_empty_sites("full", phys_dim=phys[0])
+                    if list(B.gen_sites_present()) != list(range(Lbig)):
+                        return f"sites {list(B.gen_sites_present())}"
+                    ref_sub = _chain_dense(oarrs)
+                    # value check through the action on the kept sites: trace out the filled sites
+                    d = phys[0]
+                    n_fill = Lbig - len(sites)
+                    full = B.to_dense()
+                    T = full.reshape([d] * Lbig * 2)
+                    other = [s for s in range(Lbig) if s not in sites]
+                    for k, s in enumerate(sorted(other, reverse=True)):
+                        T = np.trace(T, axis1=s, axis2=s + T.ndim // 2)
+                    Dk = d ** len(sites)
+                    return _close(T.reshape(Dk, Dk), ref_sub * d ** n_fill, tol, "fill_empty_sites(phys_dim=d)")
+
+                cx.check("MatrixProductOperator.fill_empty_sites(phys_dim=d) fills with d x d identities",
+                         dict(ps, explicit_phys_dim=True), t_fill_pd)
+
         # ---- from_dense ----
         if not cyclic:
             D = int(np.prod(phys))
@@ -377,6 +413,14 @@ def construct(cx):
                     for s, d in zip(sites, phys):
                         if A.phys_dim(s) != d:
                             return f"site {s}: phys dim {A.phys_dim(s)} != {d}"
+                    # chain structure: bonds only between consecutive present sites (increasing order)
+                    ss = sorted(sites)
+                    for i, si in enumerate(ss):
+                        for j, sj in enumerate(ss):
+                            if j > i:
+                                nb = len(set(A[si].inds) & set(A[sj].inds))
+                                if nb != (1 if j == i + 1 else 0):
+                                    return f"{nb} bonds between present sites {si} and {sj}: not a chain in site order"
                     return None
 
                 cx.check("MatrixProductOperator.from_dense(A, dims, sites, L): subsystem k acts on sites[k]",
@@ -441,26 +485,6 @@ def construct(cx):
                      dict(p, bond_dim=bd, Lbig=Lbig, sites=sub, nphys=len(physc), shape=oshp if op else shp, seed=seed), t_ff,
                      nontrivial=L > 1)
 
-            if len(set(phys)) == 1 and L >= 2 and Lbig > L:
-                def t_fill_pd(oarrs=oarrs, sites=sites, Lbig=Lbig, tol=tol, phys=phys, dt=dt):
-                    A = qtn.MatrixProductOperator(_to_layout(oarrs, "lrud", False, True), sites=sites, L=Lbig)
-                    B = A.fill_empty_sites("full", phys_dim=phys[0])
-                    if list(B.gen_sites_present()) != list(range(Lbig)):
-                        return f"sites {list(B.gen_sites_present())}"
-                    ref_sub = _chain_dense(oarrs)
-                    # value check through the action on the kept sites: trace out the filled sites
-                    d = phys[0]
-                    n_fill = Lbig - len(sites)
-                    full = B.to_dense()
-                    T = full.reshape([d] * Lbig * 2)
-                    other = [s for s in range(Lbig) if s not in sites]
-                    for k, s in enumerate(sorted(other, reverse=True)):
-                        T = np.trace(T, axis1=s, axis2=s + T.ndim // 2)
-                    Dk = d ** len(sites)
-                    return _close(T.reshape(Dk, Dk), ref_sub * d ** n_fill, tol, "fill_empty_sites(phys_dim=d)")
-
-                cx.check("MatrixProductOperator.fill_empty_sites(phys_dim=d) fills with d x d identities",
-                         dict(ps, explicit_phys_dim=True), t_fill_pd)
 
 
 # ----------------------------------------------------------------------------------------------
@@ -483,6 +507,8 @@ def _basis(bits, dt):
               "periodic where accepted, site-dependent physical dims; reference: explicit dense vectors / Kronecker products")
 def generators(cx):
     import quimb.tensor as qtn
+
+    _serial_cotengra()
 
     rng = cx.rng
     Ls = range(1, 7) if cx.quick else range(1, 9)
@@ -826,11 +852,13 @@ def _with_exp(tn, e):
               "partial_trace_to_dense_canonical, bipartite_schmidt_state, permute_arrays; reference: numpy on dense arrays")
 def arithmetic(cx):
     import quimb.tensor as qtn
+
+    _serial_cotengra()
     from quimb.tensor.tn1d.core import expec_TN_1D
     from quimb.tensor.tnag.core import tensor_network_apply_op_op, tensor_network_apply_op_vec
 
     rng = cx.rng
-    reps = 3 if cx.quick else 14
+    reps = 6 if cx.quick else 30
     for L, cyclic, rep in itertools.product(range(1, 7), (False, True), range(reps)):
         if cyclic and L < 3:
             continue
@@ -1429,7 +1457,7 @@ _COMPRESS_KINDS = ("mps", "mpo", "mps+same", "mpo*mps", "mpo*mpo", "submpo*mps")
 @driver("C09", "compress-every-method", chunks=12, timeout=400,
         bound="every key of the dispatcher table of tensor_network_1d_compress (17 methods) x sweep_reverse x inputs "
               "{MPS, MPO, a + a/2 (rank-deficient sum), lazy MPO.MPS, lazy MPO.MPO, lazy sub-MPO.MPS with long-range "
-              "bonds}, open chains L 2..6 (thorough 2..7), site-dependent physical dims 1..3 and bond dims 1..5, "
+              "bonds}, open chains L 1..5 (thorough 1..7), site-dependent physical dims 1..3 and bond dims 1..5, "
               "4 dtypes, caps {None where accepted, Schmidt rank, input bond dimension chi, chi+3, rank/2, 1}, cutoff {default, 0}, normalize, "
               "equalize_norms {False, True, 1.0}, stored input exponent, in place / copy: (i) equality with the input "
               "(method-dependent tolerance: direct/zipup/sdc 1e-7, dm 1e-6, src/fit 1e-5; single precision 3e-3..1e-2) when the "
@@ -1439,6 +1467,8 @@ _COMPRESS_KINDS = ("mps", "mpo", "mps+same", "mpo*mps", "mpo*mpo", "submpo*mps")
               "dense input across each cut)")
 def compress_methods(cx):
     import quimb.tensor as qtn
+
+    _serial_cotengra()
     from quimb.tensor.tn1d import compress as cmod
 
     rng = cx.rng
@@ -1448,7 +1478,7 @@ def compress_methods(cx):
                  lambda: None if set(EXPECTED_METHODS) <= set(table) else f"missing {sorted(set(EXPECTED_METHODS) - set(table))}",
                  nontrivial=False)
     methods = sorted(table)
-    Ls = (2, 3, 4, 5) if cx.quick else (2, 3, 4, 5, 6, 7)
+    Ls = (1, 2, 2, 3, 3, 4, 4, 5, 5) if cx.quick else (1, 2, 2, 3, 3, 4, 4, 5, 5, 6, 6, 7)
     reps = 10 if cx.quick else 120
     for method, kind, reverse, rep in itertools.product(methods, _COMPRESS_KINDS, (False, True), range(reps)):
         if not cx.mine():
@@ -1588,6 +1618,8 @@ def _flat_dense_sites(tn, L, op):
               "dense SVD tails across each cut, independent isometry defects")
 def flat(cx):
     import quimb.tensor as qtn
+
+    _serial_cotengra()
     from quimb.tensor.tn1d import compress as cmod
 
     rng = cx.rng
@@ -1629,7 +1661,8 @@ def flat(cx):
                 opts["cutoff"] = cutoff
             return x, d_in, ranks, rank, cap, opts
 
-        def judge(x, d_in, ranks, rank, cap, centre, bound, L=L, dt=dt, tol=tol, cyclic=cyclic, bonds_checked=None, op=op):
+        def judge(x, d_in, ranks, rank, cap, centre, bound, L=L, dt=dt, tol=tol, cyclic=cyclic, bonds_checked=None, op=op,
+                  exact_from=None):
             """common post-conditions; centre None = no canonical promise; bound: apply the sqrt(sum tails) bound"""
             d_out = _flat_dense_sites(x, L, op)
             if d_out.shape != d_in.shape:
@@ -1649,7 +1682,9 @@ def flat(cx):
                 if cap is None and err > 1e-2 * (1 if _is_single(dt) else 1e-4):
                     return f"periodic, no cap: relative error {err:.3e}"
                 return None
-            exact = cap is None or cap >= rank
+            # exactness is promised from the Schmidt rank on when the truncation happens in a canonical gauge, else only
+            # from the bond dimension of the representation on (exact_from)
+            exact = cap is None or cap >= (rank if exact_from is None else exact_from)
             lim = 3e-3 if _is_single(dt) else 3e-6   # cutoff <= 1e-10 relative discarded weight
             if exact and err > lim:
                 return f"nothing needs truncating (ranks {ranks}, cap {cap}) but relative error {err:.3e}"
@@ -1668,11 +1703,13 @@ def flat(cx):
         # ---- compress(form) ----
         def t_compress(form=form):
             x, d_in, ranks, rank, cap, opts = prep()
+            chi0 = max(x.bond_sizes()) if L > 1 and not (cyclic and L == 2) else 1
             r = x.compress(form, **opts)
             if r is not None and r is not x:
                 return "compress() returned a different object"
             centre = None if (form == "flat" or cyclic) else (0 if form in (None, "right") else (L - 1 if form == "left" else form))
-            return judge(x, d_in, ranks, rank, cap, centre, bound=(form != "flat" and not cyclic))
+            return judge(x, d_in, ranks, rank, cap, centre, bound=(form != "flat" and not cyclic),
+                         exact_from=chi0 if form == "flat" else None)
 
         cx.check("compress(form): unchanged when untruncated, bonds <= cap, promised canonical centre, error <= sqrt(sum tails)",
                  p, t_compress, nontrivial=L > 1)
@@ -1719,12 +1756,13 @@ def flat(cx):
 
             site = int(rng.integers(L))
 
-            def t_csite(site=site):
+            def t_csite(site=site, optimal=False):
                 x, d_in, ranks, rank, cap, opts = prep()
+                chi0 = max(x.bond_sizes())
                 info = {}
                 x.compress_site(site, info=info, **opts)
                 adj = [k for k in (site - 1, site) if 0 <= k < L - 1]
-                e = judge(x, d_in, ranks, rank, cap, site, bound=False, bonds_checked=adj)
+                e = judge(x, d_in, ranks, rank, cap, site, bound=optimal, bonds_checked=adj, exact_from=None if optimal else chi0)
                 if e:
                     return e
                 co = info.get("cur_orthog")
@@ -1732,8 +1770,10 @@ def flat(cx):
                     return f"info['cur_orthog'] = {co} after compress_site({site})"
                 return None
 
-            cx.check("compress_site(i): unchanged when untruncated, adjacent bonds <= cap, canonical around i", dict(p, site=site),
-                     t_csite)
+            cx.check("compress_site(i): unchanged when cap >= bond dimension, adjacent bonds <= cap, canonical around i",
+                     dict(p, site=site), t_csite)
+            cx.check("compress_site(i) truncates in the canonical gauge: exact from the Schmidt rank on, error <= sqrt(sum tails)",
+                     dict(p, site=site), lambda t_csite=t_csite: t_csite(optimal=True))
 
         # ---- bond expansion ----
         if L >= 2 and not (cyclic and L == 2):
@@ -1763,8 +1803,8 @@ def flat(cx):
                     return _close(_flat_dense_sites(bra, L, False), d_in.conj(), tol, "bra not mirrored")
                 return None
 
-            cx.check("expand_bond_dimension(n, rand_strength=0): value unchanged, every bond = max(old, n)", dict(p, new_bond=newb),
-                     t_expand)
+            cx.check("expand_bond_dimension(n, rand_strength=0): value unchanged, every bond = max(old, n)",
+                     dict(p, new_bond=newb, inplace=bool(rep % 2)), t_expand)
 
         # ---- gating an MPS with an MPO and compressing ----
         if not op and not cyclic and L >= 2:
@@ -1960,5 +2000,153 @@ def flat(cx):
                 return None
 
             cx.check("MPS.gate_with_submpo(S, method): == embedded operator @ a, recorded centre is true",
-                     dict(p, sub_sites=sites, method=sm, transpose=transpose, sweep_reverse=srev, where_given=swhere, inplace=inplace),
-                     t_sub)
+                     dict(p, sub_sites=sites, method=sm, transpose=transpose, sweep_reverse=srev, where_given=swhere, inplace=inplace,
+                          single_site_region=(len(sites) == 1)), t_sub)
+
+
+# ----------------------------------------------------------------------------------------------
+# driver 6: options of the 1D compressors (sums of networks, sweep sequences, site order, initial guesses)
+# ----------------------------------------------------------------------------------------------
+
+@driver("C09", "compress-options", chunks=6, timeout=300,
+        bound="fit of a SUM of networks (2-3 terms: MPS, lazy MPO.MPS) with bsz {1, 2, auto}, sweep sequences {R, L, RL, LR}, "
+              "4-5 iterations, tn_fit {None, TN_matching guess, method name, option dict}; reversed site_tags, canonize=False, "
+              "permute_arrays for {direct, dm, zipup, sdc, src}; open chains L 2..6, 4 dtypes; max_bond >= the sum of the "
+              "bond dimensions (identity expected to 1e-5 / single 5e-3), cap, canonical centre as documented")
+def compress_options(cx):
+    import quimb.tensor as qtn
+
+    _serial_cotengra()
+
+    rng = cx.rng
+    reps = 30 if cx.quick else 300
+    for L, rep in itertools.product(range(2, 7), range(reps)):
+        if not cx.mine():
+            continue
+        if cx.out_of_time():
+            cx.inconclusive.append("compress-options: time budget exhausted")
+            return
+        dt = DTYPES[int(rng.integers(4))]
+        phys = _dims_choices(rng, L, 3, allow_one=bool(rng.integers(3) == 0))
+        nterms = int(rng.integers(2, 4))
+        seed = int(rng.integers(1 << 30))
+        bsz = (1, 2, "auto")[int(rng.integers(3))]
+        seq = ("R", "L", "RL", "LR")[int(rng.integers(4))]
+        nit = int(rng.integers(4, 6))
+        reverse = bool(rng.integers(2))
+        guess = ("none", "matching", "str", "dict")[int(rng.integers(4))]
+        extra = int(rng.integers(0, 3))
+        p = dict(L=L, dtype=dt, phys=phys, nterms=nterms, seed=seed, bsz=str(bsz), sweep_sequence=seq, max_iterations=nit,
+                 sweep_reverse=reverse, guess=guess, extra=extra, rep=rep)
+
+        def t_fit_sum(L=L, dt=dt, phys=phys, nterms=nterms, seed=seed, bsz=bsz, seq=seq, nit=nit, reverse=reverse, guess=guess,
+                      extra=extra):
+            r2 = np.random.default_rng(seed)
+            tns, ref, chi = [], 0, 0
+            for k in range(nterms):
+                arrs = _chain(r2, L, phys, _dims_choices(r2, L, 2), dt, False, False)
+                a = qtn.MatrixProductState(_to_layout(arrs, "lrp", False, False))
+                da = _chain_dense(arrs).astype(np.complex128).reshape(-1)
+                if k == 1:
+                    oar = _chain(r2, L, phys, _dims_choices(r2, L, 2), dt, False, True)
+                    A = qtn.MatrixProductOperator(_to_layout(oar, "lrud", False, True))
+                    tns.append(A.apply(a, contract=False))
+                    ref = ref + _chain_dense(oar).astype(np.complex128) @ da
+                    chi += max(i * j for i, j in zip(a.bond_sizes(), A.bond_sizes()))
+                else:
+                    tns.append(a)
+                    ref = ref + da
+                    chi += max(a.bond_sizes())
+            cap = chi + extra
+            opts = dict(max_bond=cap, bsz=bsz, sweep_sequence=seq, max_iterations=nit, sweep_reverse=reverse, seed=seed % 1000)
+            if bsz in (1, 2):
+                opts["cutoff"] = 0.0   # (the dispatcher's default cutoff 1e-10 is rejected by the 1-site sweep)
+            if guess == "matching":
+                opts["tn_fit"] = qtn.TN_matching(tns[0], max_bond=cap, seed=seed % 1000)
+            elif guess == "str":
+                opts["tn_fit"] = "zipup"
+            elif guess == "dict":
+                opts["tn_fit"] = {"method": "direct", "cutoff": 0.0}
+            out = qtn.tensor_network_1d_compress(tns, method="fit", **opts)
+            if out.num_tensors != L or sorted(out.outer_inds()) != [f"k{i}" for i in range(L)]:
+                return f"{out.num_tensors} tensors, outer {out.outer_inds()}"
+            chis = _bond_sizes_1d(out, [f"I{i}" for i in range(L)])
+            if max(chis) > cap:
+                return f"bonds {chis} exceed max_bond {cap}"
+            got = np.asarray(out.to_dense([f"k{i}" for i in range(L)])).reshape(-1).astype(np.complex128)
+            err = float(np.linalg.norm(got - ref)) / max(float(np.linalg.norm(ref)), 1e-300)
+            mt = 5e-3 if _is_single(dt) else 1e-5
+            # a 2-site sweep re-splits a pair of sites: the new bond is at most min(chi_left * d_i, d_j * chi_right), so it can
+            # never grow next to a site of physical dimension 1; with a low-rank initial guess (built from the first term only)
+            # the fixed point is then not the sum -- identity is not required for that class (cap and centre still are)
+            stuck = (bsz in (2, "auto")) and guess in ("str", "dict") and (1 in phys)
+            if err > mt and not stuck:
+                return f"fit of a sum of {nterms} networks with max_bond {cap} >= total bond dimension {chi}: relative error {err:.3e}"
+            last = seq[(nit - 1) % len(seq)]
+            centre = (L - 1) if last == "R" else 0
+            if reverse:
+                centre = L - 1 - centre
+            return _canon_msg(_View(out, [f"I{i}" for i in range(L)]), centre, 2e-3 if _is_single(dt) else 1e-7)
+
+        cx.check("tensor_network_1d_compress([tn...], method='fit') == dense sum of the networks, bonds <= cap, centre per last sweep",
+                 p, t_fit_sum)
+
+        method = ("direct", "dm", "zipup", "sdc", "src", "zipup-first", "srcmps")[int(rng.integers(7))]
+        kind = _COMPRESS_KINDS[int(rng.integers(len(_COMPRESS_KINDS)))]
+        variant = ("reversed_site_tags", "canonize_false", "permute_custom", "site_tags_explicit")[int(rng.integers(4))]
+        po = dict(L=L, dtype=dt, method=method, kind=kind, variant=variant, seed=seed, sweep_reverse=reverse, rep=rep)
+
+        def t_opts(L=L, dt=dt, method=method, kind=kind, variant=variant, seed=seed, reverse=reverse):
+            r2 = np.random.default_rng(seed)
+            tn, phys2 = _compress_inputs(qtn, r2, kind, L, dt)
+            tags = [f"I{i}" for i in range(L)]
+            groups = _site_groups(tn, tags)
+            x_in = np.asarray(tn.to_dense(*groups)).astype(np.complex128)
+            chi = max(_chi_in(tn, tags))
+            opts = dict(method=method, max_bond=chi + 1, cutoff=0.0, sweep_reverse=reverse)
+            if method in ("src", "srcmps"):
+                opts["seed"] = seed % 1000
+            order = tags
+            if variant == "reversed_site_tags":
+                order = tags[::-1]
+                opts["site_tags"] = order
+                opts["permute_arrays"] = False
+            elif variant == "site_tags_explicit":
+                opts["site_tags"] = tuple(tags)
+            elif variant == "canonize_false":
+                opts["canonize"] = False
+            elif variant == "permute_custom" and kind in ("mps", "mps+same", "mpo*mps", "submpo*mps"):
+                opts["permute_arrays"] = "prl"
+            out = qtn.tensor_network_1d_compress(tn, **opts)
+            if out.num_tensors != L:
+                return f"{out.num_tensors} tensors"
+            x_out = np.asarray(out.to_dense(*groups)).astype(np.complex128)
+            err = float(np.linalg.norm(x_out - x_in)) / float(np.linalg.norm(x_in))
+            mt = _method_tol(method, dt)
+            if err > mt:
+                return f"max_bond {chi + 1} > input bond dimension {chi}, cutoff 0: relative error {err:.3e} > {mt:.1e}"
+            if max(_bond_sizes_1d(out, tags)) > chi + 1:
+                return "cap exceeded"
+            if variant != "canonize_false" or method in ("direct", "dm"):
+                centre = L - 1 if reverse else 0   # position within `order`
+                e = _canon_msg(_View(out, order), centre, 2e-3 if _is_single(dt) else 1e-7)
+                if e:
+                    return e
+            if opts.get("permute_arrays") == "prl":
+                for i in range(L):
+                    t = out[tags[i]]
+                    want = ["p"] + (["r"] if i < L - 1 else []) + (["l"] if i > 0 else [])
+                    kinds = []
+                    for ix in t.inds:
+                        if ix == f"k{i}":
+                            kinds.append("p")
+                        elif i > 0 and ix in out[tags[i - 1]].inds:
+                            kinds.append("l")
+                        else:
+                            kinds.append("r")
+                    if kinds != want:
+                        return f"site {i}: stored layout {''.join(kinds)} != requested {''.join(want)}"
+            return None
+
+        cx.check("tensor_network_1d_compress options (site_tags order, canonize=False, permute_arrays): identity, cap, centre at "
+                 "site_tags[0] / [-1]", po, t_opts)
